@@ -148,8 +148,15 @@ def gate_stitch():
         for rowsel, ubs, k, dec in cases:
             ss = [mk([10.0 * j + i for i in rowsel], [grid[i] for i in rowsel]) for j in range(k)]; bs = [grid[u] for u in ubs]
             if dec: ss = ss[::-1]; bs = bs[::-1]
-            try: out.append(frame_rows(Pm.df_slice(ss, None, bs, '(]', n = 2)))
-            except Exception as e: out.append('raised %s' % type(e).__name__)
+            try:
+                f = Pm.df_slice(ss, None, bs, '(]', n = 2); out.append(frame_rows(f))
+            except Exception as e: out.append('raised %s' % type(e).__name__); continue
+            if not dec:                        # df_unslice and the re-stitching (increasing bounds)
+                try:
+                    res = Pm.df_unslice(f, list(bs))
+                    out.append(([(k, tuple(v for t, v in rows(s_)) + tuple(t for t, v in rows(s_))) for k, s_ in res.items()], [0]))
+                    out.append(frame_rows(Pm.df_slice(list(res.values()), None, list(bs), '(]', n = 2)))
+                except Exception as e: out.append('raised %s' % type(e).__name__)
         return out
     real = run(RP, lambda v, i: rpd.Series(v, rpd.DatetimeIndex(i), dtype = float))
     Pm = setup_pandas()
@@ -158,9 +165,10 @@ def gate_stitch():
         if isinstance(x, str) or isinstance(y, str): return x == y
         (rx, nx), (ry, ny) = x, y
         return list(nx) == list(ny) and len(rx) == len(ry) and all(a[0] == b[0] and all(p == q or (p != p and q != q) for p, q in zip(a[1], b[1])) for a, b in zip(rx, ry))
-    for case, x, y in zip(cases, real, model):
-        if not same(x, y): return False, dict(mismatch = str(case), real = str(x)[:300], model = str(y)[:300])
-    return True, dict(comparisons = len(cases))
+    if len(real) != len(model): return False, dict(mismatch = 'different number of results', real = len(real), model = len(model))
+    for x, y in zip(real, model):
+        if not same(x, y): return False, dict(real = str(x)[:300], model = str(y)[:300])
+    return True, dict(comparisons = len(real))
 
 def obligations(tier):
     q = tier == 'quick'; N = 3 if q else 4
@@ -185,7 +193,7 @@ def obligations(tier):
             for ncols in (1, 2):
                 obs.append(Ob('unslice.%d-bounds.%d-rows.%d-columns' % (k, n, ncols), h_unslice(k, n, ncols), setup = S, budget_s = 300 if q else 1500,
                               desc = 'df_unslice of %d series stitched into %d column(s) over %d stamps: one series per bound, re-stitching reproduces the frame' % (k, ncols, n)))
-    obs.append(Ob('gate.stitch-columns-model', gate_stitch, engine = 'gate', desc = 'df_slice(list of series, ub = list, n = 2) under the frame model == under the real pandas on a small exhaustive domain'))
+    obs.append(Ob('gate.stitch-columns-model', gate_stitch, engine = 'gate', desc = 'df_slice(list of series, ub = list, n = 2), df_unslice of the result and the re-stitching under the frame model == under the real pandas on a small exhaustive domain'))
     for k in (2, 3):
         for n in range(1, (3 if q else 4)):
             for dec in (False, True):
